@@ -92,8 +92,9 @@ def make_shell_classes(api):
 class Mole:
     """Stub of pyscf.gto.mole.Mole: exactly the three attributes from_pyscf reads."""
 
-    def __init__(self, atoms, basis, cart):
-        self._atom = [(sym, list(xyz)) for sym, xyz in atoms]
+    def __init__(self, atoms, basis, cart, coord_form="list"):
+        conv = {"list": list, "tuple": tuple, "array": lambda x: np.array(x, dtype=float)}[coord_form]
+        self._atom = [(sym, conv(xyz)) for sym, xyz in atoms]
         self._basis = {sym: [[sh[0]] + [list(row) for row in sh[1:]] for sh in shells] for sym, shells in basis.items()}
         self.cart = bool(cart)
 
@@ -575,7 +576,7 @@ def r_make_contr(w, op):
 
 
 def r_new_mole(w, op):
-    m = Mole(op["atoms"], op["basis"], op["cart"])
+    m = Mole(op["atoms"], op["basis"], op["cart"], op.get("coord_form", "list"))
 
     def post(_):
         w.moles.append(Entry(m))
